@@ -247,7 +247,9 @@ func runC12(w *World, r *Report) {
 	optionSemantics(w, r, "C12")
 	phaseTables(w, r, "C12")
 	wholeInputRule(w, r, "C12")
+	errorsNotDiscarded(w, r, "C12")
 	computedFieldsSingle(w, r, "C12")
+	lengthLinkByKind(w, r, "C12")
 	c12OptionValidation(w, r, "C12")
 	c12PositionSource(w, r)
 	c12PositionRecorded(w, r)
@@ -473,6 +475,33 @@ func c12Gate(w *World, r *Report) {
 			r.fail(rule, "ParseFile error returned", w.instrPos(pcall), "ParseFile's error does not become Compile's error before the model is inspected")
 		}
 	}
+	// Compile's error reaches the command
+	nDel := 0
+	for _, f := range w.allFuncsInRepo() {
+		if f.Pkg != w.Cmd {
+			continue
+		}
+		for _, c := range callsTo(f, compile.String()) {
+			nDel++
+			key := "Compile's error reaches the exit status"
+			if nDel > 1 {
+				key += fmt.Sprintf(" (call #%d)", nDel)
+			}
+			cv, ok := c.(*ssa.Call)
+			if !ok {
+				r.fail(rule, key, w.instrPos(c), "Compile is started with go/defer: its error is dropped, a rejected DSL ends with exit status 0")
+				continue
+			}
+			if why := errorDelivered(w, cv, 0); why == "" {
+				r.pass(rule, key, w.instrPos(c), "")
+			} else {
+				r.fail(rule, key, w.instrPos(c), why+": a rejected DSL ends with exit status 0")
+			}
+		}
+	}
+	if nDel == 0 {
+		r.fail(rule, "Compile is called by the command line", w.pos(compile.Pos()), "no call of cmd.Compile in package cmd")
+	}
 	// Execute: error -> os.Exit(non-zero)
 	exec := w.Cmd.Func("Execute")
 	if exec == nil {
@@ -494,22 +523,46 @@ func c12Gate(w *World, r *Report) {
 			if !ok || !sameValue(x, cv) {
 				continue
 			}
-			for _, bb := range exec.Blocks {
-				if !edgeDominates(b, nn, bb) {
-					continue
-				}
+			// must: no path from the error edge leaves Execute without passing an exit with a non-zero status
+			exits := func(bb *ssa.BasicBlock) bool {
 				for _, ins := range bb.Instrs {
 					if ci, ok := ins.(ssa.CallInstruction); ok && exitsNonZero(ci, 0) {
-						okExit = true
+						return true
 					}
 				}
+				return false
+			}
+			seen := map[*ssa.BasicBlock]bool{}
+			stack := []*ssa.BasicBlock{b.Succs[nn]}
+			leaks, some := false, false
+			for len(stack) > 0 {
+				bb := stack[len(stack)-1]
+				stack = stack[:len(stack)-1]
+				if seen[bb] {
+					continue
+				}
+				seen[bb] = true
+				if exits(bb) {
+					some = true
+					continue
+				}
+				if noReturnBlock(bb) {
+					continue
+				}
+				if len(bb.Succs) == 0 {
+					leaks = true
+				}
+				stack = append(stack, bb.Succs...)
+			}
+			if some && !leaks {
+				okExit = true
 			}
 		}
 	}
 	if okExit {
 		r.pass(rule, "Execute exits non-zero on error", w.pos(exec.Pos()), "")
 	} else {
-		r.fail(rule, "Execute exits non-zero on error", w.pos(exec.Pos()), "rootCmd.Execute()'s error does not lead to os.Exit(non-zero)")
+		r.fail(rule, "Execute exits non-zero on error", w.pos(exec.Pos()), "a path on which rootCmd.Execute() returned an error leaves Execute without os.Exit(non-zero): a rejected DSL ends with exit status 0")
 	}
 }
 
